@@ -13,6 +13,7 @@ pub mod service_main;
 pub mod structs;
 
 mod handler_drv; // X02_EXTHANDLER: handler commands and service loop (checks/x02_exthandler.py)
+mod monitor_drv; // C20: the real monitor loop under a paused clock (hook H10), sequence-number changes, status files read back
 
 use std::io::{BufRead, Write};
 
@@ -303,6 +304,10 @@ fn main() {
                 let mut log_seen = std::fs::read(&log_file).map(|b| b.len()).unwrap_or(0);
                 let mut have_good = false;
                 let mut last_good: Option<String> = None; // what the healthy agent wrote last (restored by 'u' after a failure)
+                // nothing drains the process-wide event queue here (bounded, 1000): once it is full an emitted event is logged
+                // as "Failed to push event ..." instead of its text and could not be told from silence; reported, so that the
+                // orchestrator keeps the number of histories per process small and treats a full queue as a tool error
+                let mut queue_full = false;
                 for (n, ch) in cmd.polls.chars().enumerate() {
                     match ch {
                         's' => {
@@ -330,6 +335,7 @@ fn main() {
                     let all = std::fs::read(&log_file).unwrap_or_default();
                     let fresh = String::from_utf8_lossy(&all[log_seen.min(all.len())..]).to_string();
                     log_seen = all.len();
+                    queue_full |= fresh.contains("Failed to push event to the queue");
                     emits.push([
                         fresh.contains("Successfully read proxy agent aggregate status file"),
                         fresh.contains("Error in reading proxy agent aggregate status file"),
@@ -338,9 +344,11 @@ fn main() {
                     ]);
                 }
                 let _ = std::fs::remove_file(&file);
-                writeln!(out, "{}", serde_json::json!({ "out": outs, "ok": oks, "emit": emits })).unwrap();
+                writeln!(out, "{}", serde_json::json!({ "out": outs, "ok": oks, "emit": emits, "queue_full": queue_full })).unwrap();
             }
             "handler" => handler_drv::run(&line, &mut out),
+            // C20: one history of the REAL monitor loop (paused clock) per line; must run inside harness/sys/ns_enter.sh
+            "monitor" => monitor_drv::run(&line, &mut out),
             other => panic!("unknown kind {}", other),
         }
     }
